@@ -15,6 +15,7 @@ RULE = ("shift operators for basis sizes 12-100 and coordinate shifts in [-3.5,3
         "multiplicity 1 and 2 (two-exciton builds also with fem_full=True, where the coupling connects the ground state and the two-exciton band). Every Hamiltonian and dipole element between all pairs of vibronic states is compared. "
         "distinct = (class, structure of modes/level counts, rounded parameters); non-trivial iff at least one mode has a non-zero Huang-Rhys factor "
         "and more than one level, and (aggregates) at least one non-zero resonance coupling or dipole.")
+RULE = RULE + " Round-7 workloads: single molecules with 2-4 modes: every electronic block of Molecule.get_Hamiltonian has the spectrum of independent modes (sums of the single-mode levels)."
 ASSUMPTIONS = ["full vibrational state space (vibgen_approx=None); truncated state generation is not claimed",
                "closed-form overlaps are compared for levels < 20 (the library tabulates a 20x20 block of a 100-level shift operator)"]
 MIN_NONTRIVIAL = {"quick": 60, "thorough": 400}
